@@ -553,14 +553,25 @@ fn check_list_data<D: Subject>(rep: &mut Rep, d: &D, list: usize, items: &[V], m
             }
         }
     }
-    // negative indexes at the data level: observed and counted only (the runtime never passes them down;
-    // they are judged at the instruction level)
+    // negative indexes are outside 0..n-1 too: no item, not an error
     for k in NEGATIVE {
-        match guard(|| d.get_list_item(list, SimpleNumber::Integer(k)).map(|o| o.is_some())) {
-            Err(_) => rep.cx.count("data_level_negative_index_panicked", 1),
-            Ok(Err(_)) => rep.cx.count("data_level_negative_index_err", 1),
-            Ok(Ok(true)) => rep.cx.count("data_level_negative_index_returned_an_item", 1),
-            Ok(Ok(false)) => rep.cx.count("data_level_negative_index_none", 1),
+        rep.cx.count("index_reads", 1);
+        let r = guard(|| d.get_list_item(list, SimpleNumber::Integer(k)).map(|o| o.map(|a| get(d, a))));
+        let arg = format!("{} (len {})", k, n);
+        match r {
+            Err(p) => {
+                let b = Bad::Panic(p);
+                rep.violation(&b.kind(), "get_list_item", "index<0", &arg, "Ok(None)", &b.shown());
+                return false;
+            }
+            Ok(Err(e)) => {
+                let b = Bad::Err(format!("{}", e));
+                rep.violation(&b.kind(), "get_list_item", "index<0", &arg, "Ok(None)", &b.shown());
+            }
+            Ok(Ok(None)) => {}
+            Ok(Ok(Some(v))) => {
+                rep.violation("item-outside-range", "get_list_item", "index<0", &arg, "Ok(None)", &format!("Ok(Some({}))", v.show()));
+            }
         }
     }
     // iteration order
